@@ -31,6 +31,8 @@ type instrReport struct {
 	Knob          map[string]string `json:"knob"`
 	Finalizers    []string          `json:"finalizers"`
 	Timers        []string          `json:"timers"`
+	TimeRewrite   []string          `json:"time_rewritten"`
+	ClockWaits    int               `json:"clock_waits"`
 	CLI           []string          `json:"cli_redirected"`
 	CLIMain       bool              `json:"cli_main"`
 	SyncLib       int               `json:"sync_lib"`
@@ -50,6 +52,7 @@ type build struct {
 	diff    string
 
 	knobNote   string // non-empty: why the block-size knob is unavailable
+	clockNote  string // non-empty: why the simulated clock is unavailable
 	cliSkipped string // non-empty: why scenario C (the real cmd/php-parser) is not simulated
 }
 
@@ -143,7 +146,7 @@ func buildSimnode(tag string) (*build, error) {
 		if err := copyGlob(filepath.Join(vd, "sim/zzsimsync/*.go"), filepath.Join(b.src, "pkg/zzsimsync")); err != nil {
 			return err
 		}
-		for _, shim := range []string{"zzsimflag", "zzsimos"} {
+		for _, shim := range []string{"zzsimflag", "zzsimos", "zzsimtime"} {
 			if err := copyGlob(filepath.Join(vd, "sim", shim, "*.go"), filepath.Join(b.src, "pkg", shim)); err != nil {
 				return err
 			}
@@ -213,10 +216,17 @@ func buildSimnode(tag string) (*build, error) {
 		// a change may use DefaultBlockSize where only a constant is allowed: the
 		// knob (const -> var) is then given up rather than the whole check
 		first := err
-		if err2 := attempt("-noknob"); err2 != nil {
+		if err2 := attempt("-noknob"); err2 == nil {
+			b.knobNote = "block-size knob given up, the tree does not build with DefaultBlockSize as a variable: " + firstLines(first.Error(), 4)
+		} else if err3 := attempt("-notime"); err3 == nil {
+			// the tree uses a part of package time the simulated clock's shim lacks
+			b.clockNote = "simulated clock given up, the tree does not build against the clock shim: " + firstLines(first.Error(), 4)
+		} else if err4 := attempt("-noknob", "-notime"); err4 == nil {
+			b.knobNote = "block-size knob given up: " + firstLines(err3.Error(), 4)
+			b.clockNote = "simulated clock given up: " + firstLines(err2.Error(), 4)
+		} else {
 			return b, fmt.Errorf("%v\n(and without the block-size knob: %v)", first, err2)
 		}
-		b.knobNote = "block-size knob given up, the tree does not build with DefaultBlockSize as a variable: " + firstLines(first.Error(), 4)
 	}
 	if out, err := run(repo, nil, "git", "rev-parse", "HEAD"); err == nil {
 		b.head = strings.TrimSpace(out)
